@@ -8,12 +8,13 @@ import Driver.Parser
 import Driver.Router
 import Driver.Promise
 import Driver.Queue
+import Driver.PromiseMT
 
 open Drv
 
 def dispatch (line : String) : String :=
   let ws := words line
-  let ops : List (List String → Option String) := [base64Op, mimeOp, netOp, headersOp, cookieOp, parserOp, routerOp, promiseOp, queueOp]
+  let ops : List (List String → Option String) := [base64Op, mimeOp, netOp, headersOp, cookieOp, parserOp, routerOp, promiseOp, queueOp, promiseMTOp]
   match ops.findSome? (fun f => f ws) with
   | some r => r
   | none => "bad-op"
